@@ -111,6 +111,33 @@ which sees a construct first and hands everything it does not recognise to Fn):
   `int(s, 16)` / `int(s, 10)` = py_int_o; (a, b) <op> (c, d) on tuples of ints = componentwise equality / lexicographic order;
   hash((a, b)) = py_hash_pair (the pair itself); `_is_int(x)`, `isinstance(x, slice)`, `isinstance(x, EUI)` are decided by the
   declared type of x (int / str / eui).
+* parsers: the module-level lists of compiled regular expressions RE_MAC_FORMATS / RE_EUI64_FORMATS are the hand-compiled matchers
+  mac_pats / eui64_pats of Model/Eui.v (SRCF_TABLES; pinned to the regenerated pattern strings by Proofs/GenOk_C08.v);
+  `regexp.findall(text)` = py_findall = match_pat (None = [], Some groups = [groups]; TypeError for an int argument), len() / truth /
+  [0] of that result = py_matches_len / py_found / py_match0; the groups of a match are a list of text -- a tuple, or for a
+  one-group pattern that group's text itself: isinstance(g, tuple) = py_is_tuple, (g,) = [py_group_str g]; a function that returns
+  from inside a loop and None at its end has an optional result (`if x:` / `if not x:` on it narrows x in the true branch);
+  `try: <findall on text, len, comparisons> / except TypeError: pass` is its body (dead handler); a unit entry `f:int` is the
+  specialisation of f to an int first argument, chosen at a call by the type of the argument; a function all of whose paths raise
+  has result type int.
+* full-state methods (unit entry with the pseudo-parameter "self.*": EUI.__init__, _set_value, __setstate__): the attributes
+  _module / _value / _dialect are tracked at translation time (env["self._module"] = none | module (version term, eui48 | eui64 | unknown)),
+  every `if` on them duplicates the continuation, `self._module is None` is decided statically, `for module in (_eui48, _eui64)` is
+  unrolled (break = the statements after the loop), `try: body / except E: pass` = every call of the body that raises E continues after
+  the try (IR trybind; no call may follow a state assignment in the body), `try: self._value = call / except E1: raise E2` = py_except,
+  `self.value = x` = the _set_value specialisation for the module known there (`_set_value:implicit_<type>` / `:eui48_<type>` /
+  `:eui64_<type>`), `self.dialect = d` = _set_dialect, super(C, self).__init__() = the base class's constant attribute assignments,
+  `if x is not None [and ..]` on an `optint` parameter = match; the method answers the final state ((version, value) for _set_value,
+  the eui record for __init__ / __setstate__); a parameter declared "tup:t1,t2,.." is a tuple; a @classmethod listed in
+  SRCF_CLASSMETHODS whose `cls` is only read as cls.<constant> is a method of a stateless receiver with cls = its class.
+* netaddr/eui/ieee.py -> pysrc_ieee_gen.v (symbols in Model/SrcPreludeIeee.v): pseudo-parameter "self.fh" = the binary file the parser
+  reads as two leading parameters self_fh_lines / self_fh_tell (`x = self.fh.readline()` = py_readline, self.fh.tell() = the position);
+  self.notify(r) appends r to the list the method returns; every text value is a bytes object: `a in b` = py_bytes_in,
+  b.split()[0] = py_bytes_split0, b.split(sep)[0] = py_bytes_split_sep0, int(b, 16) = py_int16_bytes (Model/Ieee.v int16), truth =
+  py_bytes_truthy, a + b = String.append, _bytes_type('lit') = the literal; a local declared `optintlist` / `optbilist` in the unit
+  entry is None or a list of ints / of bytes-or-int values (bi: BiB | BiI; elements are injected by their static type): `x is not None`
+  and x.append(e) narrow x to the list (AttributeError on None), x[k] / x[k] = e raise TypeError on None, v.replace(..) on a bi value
+  raises AttributeError for an int; `while True` runs on FUEL = len(self_fh_lines) + 1.
 """
 import ast
 import os
@@ -292,11 +319,23 @@ SRCF_UNITS = [
         ("EUI", "__setstate__", {"state": "tup:int,int,darg", "self.*": "state"}), ("IAB", "split_iab_mac", {"strict": "bool"}),
     ]),
 ]
+# netaddr/eui/ieee.py (property C19): the two index parsers.  The pseudo-parameter "self.fh" makes the file object the parser reads
+# two leading parameters (its remaining lines, the position tell() answers) and the rows handed to self.notify() the result;
+# a name declared with a type here that is not a parameter is a local variable of that type (`optintlist` = None or a list of ints).
+SRCF_UNITS.append(("netaddr/eui/ieee.py", "pysrc_ieee_gen.v", "", " Base.PyStr Model.SrcPreludeStr Model.Ieee Model.SrcPreludeIeee", [
+    ("OUIIndexParser", "parse", {"self.fh": "file", "record": "optintlist"}),
+    ("IABIndexParser", "parse", {"self.fh": "file", "record": "optbilist"})]))
+STATE["OUIIndexParser"] = STATE["IABIndexParser"] = ()
+UNIT_PREAMBLE["pysrc_ieee_gen.v"] = ("(* Model/Ieee.v leaves string_scope open: `++` below is list concatenation *)\n"
+                                      "Open Scope list_scope.\nOpen Scope Z_scope.\n")
+FUEL[("OUIIndexParser", "parse", 1)] = ("len(self_fh_lines)", 1)       # one line per iteration, one more to see the end of the file
+FUEL[("IABIndexParser", "parse", 1)] = ("len(self_fh_lines)", 1)
 UNITS += SRCF_UNITS
 FILES = FILES + tuple(u[1] for u in SRCF_UNITS)
 STATE["IAB"] = ()
 COQTY.update({"edialect": "dialect_t", "optedialect": "(option dialect_t)", "optstr": "(option string)", "darg": "darg"})
-SRCF_VALUE_TYPES = ("edialect", "optedialect", "optstr", "darg", "pat", "matches", "optgroups")
+SRCF_VALUE_TYPES = ("edialect", "optedialect", "optstr", "darg", "pat", "matches", "optgroups", "optintlist", "bi", "optbilist")
+COQTY.update({"optintlist": "(option (list Z))", "bi": "bi", "optbilist": "(option (list bi))"})
 COQTY.update({"pat": "pat", "matches": "(option (list string))", "optgroups": "(option (list string))"})
 # netaddr.strategy.int_to_bits is not translated (nested while inside for): the call is its hand model (SrcPreludeEui2.py_int_to_bits)
 EXTERN["netaddr.strategy.int_to_bits"] = ("py_int_to_bits", ("int", "int", "int", "str"), "str")
@@ -304,7 +343,8 @@ EXTERN["netaddr.strategy.int_to_bits"] = ("py_int_to_bits", ("int", "int", "int"
 SRCF_RESERVED = set("dialect_t mk_dialect d_word_size d_num_words d_word_sep d_word_fmt d_pair py_struct_pack py_struct_unpack "
                     "py_int_to_bits py_getitem_o py_setitem_o py_slice_lit py_fmt_int py_fmt_ints py_map_o py_hash_pair join map "
                     "dialect darg DNone DRec DBad word_size num_words word_sep word_fmt pat mac_pats eui64_pats py_findall "
-                    "py_matches_len py_found py_match0 py_is_tuple py_group_str py_optgroups_truthy".split())
+                    "py_matches_len py_found py_match0 py_is_tuple py_group_str py_optgroups_truthy py_readline py_bytes_in "
+                    "py_bytes_split0 py_bytes_split_sep0 py_int16_bytes py_bytes_truthy bi BiB BiI bi_bytes blen contains".split())
 BY_FILE = {}        # (SRCF) source file -> all translators made for it, in unit order (filled by generate())
 FN_CLASS = {}       # (SRCF) output file -> the subclass of Fn that translates that unit's functions
 PURE_METHODS = PURE_METHODS + ("findall",)         # <compiled pattern>.findall(text) does not change the pattern object
@@ -374,6 +414,8 @@ def assigned_names(stmts):
                 found.append((n.lineno, n.col_offset, n.id))
             elif isinstance(n, ast.Attribute) and isinstance(n.ctx, ast.Store) and isinstance(n.value, ast.Name):
                 found.append((n.lineno, n.col_offset, n.value.id))             # x._prefixlen = e rebinds the local object x
+            elif isinstance(n, ast.Subscript) and isinstance(n.ctx, ast.Store) and isinstance(n.value, ast.Name):
+                found.append((n.lineno, n.col_offset, n.value.id))             # (SRCF) x[k] = e rebinds the local list x
             elif (isinstance(n, ast.Call) and isinstance(n.func, ast.Attribute) and isinstance(n.func.value, ast.Name)
                   and n.func.attr not in PURE_METHODS):
                 found.append((n.lineno, n.col_offset, n.func.value.id))        # any other method call on a name may mutate it
@@ -2027,6 +2069,10 @@ class FnF(Fn):
     """Fn with the constructs of the units listed in SRCF_UNITS; everything it does not recognise goes to Fn unchanged."""
     OPT = {"optstr": "str", "optedialect": "edialect"}
 
+    def __init__(self, tr, recv, name, ptypes):
+        self.spec_types = dict(ptypes)
+        Fn.__init__(self, tr, recv, name, ptypes)
+
     def coqname(self, node, name):
         if name in SRCF_RESERVED:
             if self.used.setdefault(name + "_", name) != name:
@@ -2037,6 +2083,9 @@ class FnF(Fn):
     def unit_init(self, env):
         self.dialect_param = False
         self.init_fullstate(env)
+        self.local_types = {x: t for x, t in getattr(self, "spec_types", {}).items() if t in self.OPTLIST}
+        if "self.fh" in self.ptypes_declared:
+            self.init_file_state(env)
         for i, (cn, ty) in enumerate(self.params):              # a parameter declared "tup:<t1>,<t2>,..": a tuple of those types
             if isinstance(ty, str) and ty.startswith("tup:"):
                 ty = ("tup", tuple(ty[4:].split(",")))
@@ -2159,6 +2208,8 @@ class FnF(Fn):
             return "(py_found %s)" % t                      # truth of a findall() result
         if ty == "optgroups":
             return "(py_optgroups_truthy %s)" % t           # truth of None / the groups of a match
+        if ty == "str" and self.tr.out == "pysrc_ieee_gen.v":
+            return "(py_bytes_truthy %s)" % t               # truth of a bytes object
         self.restore(snap)
         self.pre = pre0
         return Fn.bool_(self, node, env)
@@ -2204,6 +2255,10 @@ class FnF(Fn):
 
     def block(self, stmts, env, k, after):
         s = stmts[0] if stmts else None
+        if s is not None and getattr(self, "local_types", None):
+            r = self.block_opt(stmts, env, k, after)
+            if r is not None:
+                return r
         if getattr(self, "fullstate", False) and isinstance(s, ast.Expr) and isinstance(s.value, ast.Call):
             c = s.value
             if (isinstance(c.func, ast.Attribute) and c.func.attr == "__init__" and isinstance(c.func.value, ast.Call)
@@ -2364,6 +2419,77 @@ class FnF(Fn):
             self.result = "pair"
         else:
             self.result = "eui"
+
+    def init_file_state(self, env):
+        """a parser method reading the binary file self.fh and reporting rows through self.notify(): the file is the two leading
+        parameters self_fh_lines (the lines readline() will return, terminators included) and self_fh_tell (what tell() answers);
+        `x = self.fh.readline()` = `x, self_fh_lines, self_fh_tell = <py_readline>`; `self.notify(r)` appends r to the list
+        self_notified, which the method returns when it ends normally (rows delivered before an exception are not represented)"""
+        import copy
+        f = copy.deepcopy(self.f)
+        loc = lambda n, at: ast.copy_location(n, at)
+        name = lambda x, ctx, at: loc(ast.Name(id=x, ctx=ctx), at)
+        fn = self
+
+        class T(ast.NodeTransformer):
+            def visit_Assign(self, st):
+                v = st.value
+                if isinstance(v, ast.Call) and dotted(v.func) == "self.fh.readline" and not v.args and not v.keywords and len(st.targets) == 1 \
+                        and isinstance(st.targets[0], ast.Name):
+                    call = loc(ast.Call(func=name("_srcf_readline", ast.Load(), st), args=[name("self_fh_lines", ast.Load(), st),
+                                                                                          name("self_fh_tell", ast.Load(), st)], keywords=[]), st)
+                    tgt = loc(ast.Tuple(elts=[st.targets[0], name("self_fh_lines", ast.Store(), st), name("self_fh_tell", ast.Store(), st)],
+                                        ctx=ast.Store()), st)
+                    return loc(ast.Assign(targets=[tgt], value=call), st)
+                return self.generic_visit(st)
+
+            def visit_Call(self, n):
+                n = self.generic_visit(n)
+                if dotted(n.func) == "self.fh.tell" and not n.args and not n.keywords:
+                    return name("self_fh_tell", ast.Load(), n)
+                return n
+
+            def visit_Expr(self, st):
+                v = st.value
+                if isinstance(v, ast.Call) and dotted(v.func) == "self.notify" and len(v.args) == 1 and not v.keywords:
+                    arg = self.visit(v.args[0])
+                    return loc(ast.Expr(value=loc(ast.Call(func=loc(ast.Attribute(value=name("self_notified", ast.Load(), st), attr="append",
+                                                                                  ctx=ast.Load()), st), args=[arg], keywords=[]), st)), st)
+                return self.generic_visit(st)
+        f = T().visit(f)
+        if any(isinstance(n, ast.Attribute) and (dotted(n) or "").startswith("self.fh") for n in ast.walk(f)) or any(
+                isinstance(n, ast.Return) for n in ast.walk(f)):
+            bad(self.f, "use of self.fh other than `x = self.fh.readline()` / self.fh.tell(), or a return statement")
+        first = f.body[1] if f.body and isinstance(f.body[0], ast.Expr) and isinstance(f.body[0].value, ast.Constant) else f.body[0]
+        init = loc(ast.Assign(targets=[name("self_notified", ast.Store(), first)], value=loc(ast.List(elts=[], ctx=ast.Load()), first)), first)
+        ret = loc(ast.Return(value=name("self_notified", ast.Load(), f.body[-1])), f.body[-1])
+        ret.lineno = ret.end_lineno = f.end_lineno
+        doc = 1 if f.body and isinstance(f.body[0], ast.Expr) and isinstance(f.body[0].value, ast.Constant) else 0
+        f.body = f.body[:doc] + [init] + f.body[doc:] + [ret]
+        self.f = ast.fix_missing_locations(f)
+        loops = sorted((n for n in ast.walk(self.f) if isinstance(n, (ast.For, ast.While))), key=lambda n: (n.lineno, n.col_offset))
+        self.loopno = {id(n): i + 1 for i, n in enumerate(loops)}
+        for x, ty in (("self_fh_lines", ("list", Cell("str"))), ("self_fh_tell", "int")):
+            cn = self.coqname(self.f, x)
+            env[x] = (ty, cn)
+            env["@taint"] |= {x}
+            self.params.append((cn, ty))
+
+    def compat_bytes_type(self):
+        """is _bytes_type bound in netaddr/compat.py only as `lambda x: bytes(x, 'UTF-8')` or as `str`?"""
+        fn = "netaddr/compat.py"
+        tree = ast.parse(open(os.path.join(REPO, fn), encoding="utf-8").read())
+        binds = [n for n in ast.walk(tree) if (isinstance(n, (ast.FunctionDef, ast.ClassDef)) and n.name == "_bytes_type")
+                 or (isinstance(n, ast.alias) and (n.asname or n.name) == "_bytes_type")
+                 or (isinstance(n, (ast.Assign, ast.AugAssign, ast.AnnAssign)) and any(
+                     isinstance(t, ast.Name) and t.id == "_bytes_type" and isinstance(t.ctx, ast.Store) for t in ast.walk(n)))]
+        ok = lambda b: isinstance(b, ast.Assign) and len(b.targets) == 1 and (dotted(b.value) == "str" or (
+            isinstance(b.value, ast.Lambda) and len(b.value.args.args) == 1 and isinstance(b.value.body, ast.Call)
+            and dotted(b.value.body.func) == "bytes" and len(b.value.body.args) == 2 and dotted(b.value.body.args[0]) == b.value.args.args[0].arg
+            and isinstance(b.value.body.args[1], ast.Constant) and b.value.body.args[1].value == "UTF-8"))
+        if not binds or not all(ok(b) for b in binds):
+            bad(binds[-1] if binds else None, "_bytes_type is not bound in compat.py the way the translator assumes", fn)
+        return True
 
     def module_of(self, node, env):
         """the module descriptor an expression denotes at translation time, else None"""
@@ -2547,6 +2673,20 @@ class FnF(Fn):
             for x, y in reversed(list(zip(xs[:-1], ys[:-1]))):
                 t = "(%s || ((%s =? %s) && %s))" % (CMP[strict] % (x, y), x, y, t)
             return ("bool", t)
+        if isinstance(node, ast.BinOp) and isinstance(node.op, ast.Add):
+            snap, pre0 = self.snapshot(), list(self.pre)
+            (ta, a), (tb, b) = self.ex(node.left, env), self.ex(node.right, env)
+            if ta == "str" and tb == "str":
+                return ("str", "(String.append %s %s)" % (a, b))      # concatenation of bytes / text
+            self.restore(snap)
+            self.pre = pre0
+        if isinstance(node, ast.Compare) and len(node.ops) == 1 and isinstance(node.ops[0], ast.In) and dotted(node.left) != "self":
+            snap, pre0 = self.snapshot(), list(self.pre)
+            (ta, a), (tb, b) = self.ex(node.left, env), self.ex(node.comparators[0], env)
+            if ta == "str" and tb == "str":
+                return ("bool", "(py_bytes_in %s %s)" % (a, b))        # needle in hay on bytes
+            self.restore(snap)
+            self.pre = pre0
         if isinstance(node, ast.BinOp) and isinstance(node.op, ast.Mod):
             snap, pre0 = self.snapshot(), list(self.pre)
             ty, t = self.ex(node.left, env)
@@ -2564,6 +2704,23 @@ class FnF(Fn):
 
     def subscript(self, node, env):
         sl = node.slice
+        v = node.value
+        if (const_int(sl) == 0 and isinstance(v, ast.Call) and isinstance(v.func, ast.Attribute) and v.func.attr == "split" and not v.keywords
+                and len(v.args) <= 1 and self.tr.out == "pysrc_ieee_gen.v"):
+            snap, pre0 = self.snapshot(), list(self.pre)
+            ty, t = self.ex(v.func.value, env)
+            if ty == "str" and not v.args:
+                return ("out", "str", "(py_bytes_split0 %s)" % t)          # b.split()[0]
+            if ty == "str":
+                sty, st = self.ex(v.args[0], env)
+                if sty == "str":
+                    return ("out", "str", "(py_bytes_split_sep0 %s %s)" % (st, t))      # b.split(sep)[0]
+            self.restore(snap)
+            self.pre = pre0
+        if isinstance(v, ast.Name) and env.get(v.id, ("",))[0] in self.OPTLIST and const_int(sl) is not None:
+            # x[k] on None-or-list: TypeError on None, IndexError outside the list
+            return ("out", self.OPTLIST[env[v.id][0]], "(match %s with Some h0 => py_getitem_o h0 %d | None => Raise TypeError end)" % (
+                env[v.id][1], const_int(sl)))
         if True:
             snap, pre0 = self.snapshot(), list(self.pre)
             ty, t = self.ex(node.value, env)
@@ -2623,6 +2780,30 @@ class FnF(Fn):
             if is_list(r[1] if r[0] == "out" else r[0]):
                 return r
             bad(node, "list() of %s" % show(r[1] if r[0] == "out" else r[0]))
+        if isinstance(f, ast.Attribute) and f.attr == "replace" and len(node.args) == 2 and not node.keywords:
+            snap, pre0 = self.snapshot(), list(self.pre)
+            ty, t = self.ex(f.value, env)
+            if ty == "bi":                                  # x.replace(a, b) where x is bytes or an int: AttributeError for an int
+                h = self.fresh()
+                self.hoist(node, ("bind", h, "(bi_bytes %s)" % t))
+                (ta, a), (tb, b) = self.ex(node.args[0], env), self.ex(node.args[1], env)
+                if ta != "str" or tb != "str":
+                    bad(node, "replace() with arguments that are no bytes")
+                return ("str", "(replace %s %s %s)" % (a, b, h))
+            self.restore(snap)
+            self.pre = pre0
+        if (dotted(f) == "_bytes_type" and "_bytes_type" not in env and self.mod.imports.get("_bytes_type") == "netaddr.compat._bytes_type"
+                and len(node.args) == 1 and not node.keywords and isinstance(node.args[0], ast.Constant) and isinstance(node.args[0].value, str)
+                and self.compat_bytes_type()):
+            return self.rhs(node.args[0], env)              # _bytes_type('text'): the bytes of an ASCII literal
+        if dotted(f) == "_srcf_readline" and "self.fh" in self.ptypes_declared:
+            (_, a), (_, b) = self.ex(node.args[0], env), self.ex(node.args[1], env)
+            return (("tup", ("str", ("list", Cell("str")), "int")), "(py_readline %s %s)" % (a, b))
+        if self.builtin_call(node, "int", env, 2) and const_int(node.args[1]) == 16 and self.tr.out == "pysrc_ieee_gen.v":
+            ty, t = self.ex(node.args[0], env)
+            if ty != "str":
+                bad(node, "int(x, 16) of %s" % show(ty))
+            return ("out", "int", "(py_int16_bytes %s)" % t)       # int(b, 16) of a bytes object: Model/Ieee.v int16
         if self.builtin_call(node, "int", env, 2) and const_int(node.args[1]) in (10, 16):
             ty, t = self.ex(node.args[0], env)
             if ty != "str":
@@ -2681,6 +2862,30 @@ class FnF(Fn):
     # ---- statements
     def assign(self, s, env, go):
         tgt = s.targets[0] if isinstance(s, ast.Assign) and len(s.targets) == 1 else None
+        if isinstance(tgt, ast.Name) and getattr(self, "local_types", {}).get(tgt.id) in self.OPTLIST:
+            # a local declared `optintlist` / `optbilist`: None or a list of ints / of bytes-or-int values
+            oty = self.local_types[tgt.id]
+            if isinstance(s.value, ast.Constant) and s.value.value is None:
+                cn, env = self.bind_local(tgt, tgt.id, oty, env, s.value)
+                return ("let", cn, "None", go(env))
+            if oty == "optbilist" and isinstance(s.value, ast.List):
+                t = "[%s]" % "; ".join(self.as_bi(x, env) for x in s.value.elts)
+            else:
+                ty, t = self.ex(s.value, env)
+                unify(s, ty, ("list", Cell(self.OPTLIST[oty])), "value of %s" % tgt.id)
+            pre = self.take_pre()
+            cn, env = self.bind_local(tgt, tgt.id, oty, env, s.value)
+            return self.wrap(pre, ("let", cn, "(Some %s)" % t, go(env)))
+        if (isinstance(tgt, ast.Subscript) and isinstance(tgt.value, ast.Name) and env.get(tgt.value.id, ("",))[0] == "optbilist"
+                and const_int(tgt.slice) is not None):
+            # x[k] = e on None-or-list: TypeError on None
+            x, old = tgt.value.id, env[tgt.value.id][1]
+            e = self.as_bi(s.value, env)
+            pre, l, l2 = self.take_pre(), self.fresh(), self.fresh()
+            cn, env = self.bind_local(s, x, "optbilist", env, s.value)
+            return self.wrap(pre, ("omatch", old, [("Some", [l], ("bind", l2, "(py_setitem_o %s %d %s)" % (l, const_int(tgt.slice), e),
+                                                                   ("let", cn, "(Some %s)" % l2, go(env)))),
+                                                  ("None", [], ("raise", "TypeError"))]))
         if getattr(self, "fullstate", False) and tgt is not None and dotted(tgt) in self.STATE_KEYS + ("self.value", "self.dialect"):
             return self.state_assign(s, tgt, s.value, env, go)
         if (isinstance(tgt, ast.Subscript) and isinstance(tgt.value, ast.Name) and is_list(env.get(tgt.value.id, ("",))[0])
@@ -2790,6 +2995,53 @@ class FnF(Fn):
             yes = (env[t.args[0].id][0] == "int") != neg
             return self.block((s.body if yes else s.orelse) + rest, env, k, after)
         return Fn.if_(self, s, rest, env, k, after)
+
+    OPTLIST = {"optintlist": "int", "optbilist": "bi"}
+
+    def as_bi(self, node, env):
+        """an int or bytes expression as a bytes-or-int value"""
+        ty, t = self.ex(node, env)
+        if ty not in ("int", "str", "bi"):
+            bad(node, "%s where bytes or an int is expected" % show(ty))
+        return t if ty == "bi" else "(%s %s)" % ("BiI" if ty == "int" else "BiB", t)
+
+    def expr_stmt(self, s, env, go):
+        v = s.value
+        if (isinstance(v, ast.Call) and isinstance(v.func, ast.Attribute) and v.func.attr == "append" and isinstance(v.func.value, ast.Name)
+                and is_list(env.get(v.func.value.id, ("",))[0]) and env[v.func.value.id][0][1].find().t == "bi" and len(v.args) == 1
+                and not v.keywords):
+            l = v.func.value.id                              # l.append(e) on a list of bytes-or-int values
+            lty, lt = env[l]
+            t = self.as_bi(v.args[0], env)
+            pre = self.take_pre()
+            cn, env = self.bind_local(s, l, lty, env)
+            return self.wrap(pre, ("let", cn, "(%s ++ [%s])" % (lt, t), go(env)))
+        return Fn.expr_stmt(self, s, env, go)
+
+    def opt_narrow(self, s, x, env, some_stmts, none_ir):
+        """match x with Some l => <some_stmts with x : list> | None => none_ir"""
+        cn = self.coqname(s, x + "_l")
+        senv = dict(env)
+        senv[x] = (("list", Cell(self.OPTLIST[env[x][0]])), cn)
+        return ("omatch", env[x][1], [("Some", [cn], some_stmts(senv)), ("None", [], none_ir)])
+
+    def block_opt(self, stmts, env, k, after):
+        """statements on a local declared optintlist: `x.append(e)` (AttributeError on None; afterwards x is a list) and
+        `if x is not None:` (x is a list in the body)"""
+        s = stmts[0]
+        rest = list(stmts[1:])
+        if (isinstance(s, ast.Expr) and isinstance(s.value, ast.Call) and isinstance(s.value.func, ast.Attribute) and s.value.func.attr == "append"
+                and isinstance(s.value.func.value, ast.Name) and env.get(s.value.func.value.id, ("",))[0] in self.OPTLIST):
+            x = s.value.func.value.id
+            return self.opt_narrow(s, x, env, lambda e: self.block([s] + rest, e, k, after), ("raise", "AttributeError"))
+        if isinstance(s, ast.If):
+            t = s.test
+            if (isinstance(t, ast.Compare) and len(t.ops) == 1 and isinstance(t.ops[0], (ast.Is, ast.IsNot)) and isinstance(t.left, ast.Name)
+                    and isinstance(t.comparators[0], ast.Constant) and t.comparators[0].value is None
+                    and env.get(t.left.id, ("",))[0] in self.OPTLIST):
+                some, none = (s.body, s.orelse) if isinstance(t.ops[0], ast.IsNot) else (s.orelse, s.body)
+                return self.opt_narrow(s, t.left.id, env, lambda e: self.block(some + rest, e, k, after), self.block(none + rest, env, k, after))
+        return None
 
     ISINST = {("int", "slice"): False, ("int", "EUI"): False, ("str", "EUI"): False, ("str", "slice"): False,
               ("eui", "EUI"): True, ("eui", "slice"): False}
